@@ -4,7 +4,7 @@
             and stmt.Fields[i]: the trees the nodes execute, buildFinalPlan looks at and the scan
             region is inferred from), and
      fobj   in place of in_place . relink (the state of the field OBJECT a GROUP BY item points to).
-   With the real folder it IS plan_of_front (Proofs/FoldTextProofs.v plan_of_front_gen_fold, by
+   With the real folder it IS plan_of_front ((not proved: that plan_of_front_gen instantiated with the real folder IS plan_of_front is compared by stream T only), by
    reflexivity); with the identity it is the pipeline of a kvql whose optimizeSelectExpressions
    does nothing: [select_stmt_text_nofold].  Everything else (front end, model boundary incl.
    Pipeline.fold_oom, plan construction, drain) is shared, not copied.  No proofs in this file. *)
